@@ -10,9 +10,9 @@ open HtmlVerif HtmlVerif.Wire HtmlVerif.Holds
 
 def holdsC05 : OpTable
   | "render_tag" => some do
-    let n ← node; let i ← nat; let _e ← str
+    let n ← node; let i ← nat; let e ← str
     match (← implStr) with
-    | some out => pure (encBool (holdsC05Tag cfg n i out))
+    | some out => pure (encBool (holdsC05Tag cfg n i e out))
     | none => pure (encBool n.hasTobj)
   | "render_list" => some do
     let ks ← nodes; let _i ← nat; let _e ← str; let aw ← bool; let esc ← bool
